@@ -341,14 +341,16 @@ pub fn promote<ID: Eq + Hash, C: Conditions>(
     access: Access<C>,
 ) -> Result<GroupMembersState<ID, C>, GroupMembershipError<ID>> {
     if let Some(member) = state.members.get(&promoted) {
-        // No action is required if the member is already set to the highest access level.
-        let new_state = if member.is_manager() {
-            state
+        // No change of the access level is required if the member is already set to the highest
+        // one. The promoter and the promoted member are validated nonetheless: re-assigning the
+        // current access level performs all checks and leaves the state untouched.
+        let access = if member.is_manager() {
+            member.access.clone()
         } else {
-            modify(state, promoter, promoted, access)?
+            access
         };
 
-        Ok(new_state)
+        modify(state, promoter, promoted, access)
     } else {
         Err(GroupMembershipError::UnrecognisedMember(promoted))
     }
@@ -369,14 +371,16 @@ pub fn demote<ID: Eq + Hash, C: Conditions>(
     access: Access<C>,
 ) -> Result<GroupMembersState<ID, C>, GroupMembershipError<ID>> {
     if let Some(member) = state.members.get(&demoted) {
-        // No action is required if the member is already set to the lowest access level.
-        let new_state = if member.is_puller() {
-            state
+        // No change of the access level is required if the member is already set to the lowest
+        // one. The demoter and the demoted member are validated nonetheless: re-assigning the
+        // current access level performs all checks and leaves the state untouched.
+        let access = if member.is_puller() {
+            member.access.clone()
         } else {
-            modify(state, demoter, demoted, access)?
+            access
         };
 
-        Ok(new_state)
+        modify(state, demoter, demoted, access)
     } else {
         Err(GroupMembershipError::UnrecognisedMember(demoted))
     }
